@@ -25,7 +25,8 @@ for sid in ids:
                 out[p] = dict(exit=None, note="property not claimed yet")
                 continue
             t0 = time.time()
-            pr = subprocess.run(["./check", p], cwd=HERE, capture_output=True, text=True)
+            env = dict(os.environ, VERIF_EVIDENCE_DIR="/tmp/verif-sweep-evidence", VERIF_REPLAY_DIR="/tmp/verif-sweep-replays")
+            pr = subprocess.run(["./check", p], cwd=HERE, capture_output=True, text=True, env=env)
             lines = [l for l in pr.stdout.splitlines() if l.startswith(("VIOLATION", "UNDECIDED", "CHECKER"))]
             failed = [l.strip()[:260] for l in pr.stdout.splitlines() if l.strip().startswith("failed obligation")]
             out[p] = dict(exit=pr.returncode, seconds=round(time.time() - t0, 1), verdict_lines=lines[:6],
